@@ -1087,6 +1087,30 @@ fn run(op_full: &str, a: &[&str]) -> String {
                 Err(e) => format!("err {} {} {}", err_kind(&e), hex(&buf), offs(&o)),
             }
         }
+        // ONE Selector object used for a sequence of calls (exists, select, predicate_match, another document, the first again):
+        // every answer must be what a fresh selector gives (C15 judges the fields against the single calls)
+        "sel_reuse" => {
+            let jp = parse_jsonpath(a[1]);
+            let sel = Selector::new(jp, mode_of(a[2]));
+            let (d1, d2) = (unhex(a[0]), unhex(a[3]));
+            let ex = |d: &[u8]| match sel.exists(d) {
+                Ok(b) => format!("ok ={}", b),
+                Err(e) => format!("err {}", err_kind(&e)),
+            };
+            let se = |d: &[u8]| {
+                let (mut b, mut o): (Vec<u8>, Vec<u64>) = (vec![], vec![]);
+                match sel.select(d, &mut b, &mut o) {
+                    Ok(()) => format!("ok {} {}", hex(&b), offs(&o)),
+                    Err(e) => format!("err {} {} {}", err_kind(&e), hex(&b), offs(&o)),
+                }
+            };
+            let pm = |d: &[u8]| match sel.predicate_match(d) {
+                Ok(b) => format!("ok ={}", b),
+                Err(e) => format!("err {}", err_kind(&e)),
+            };
+            let parts = vec![ex(&d1), se(&d1), pm(&d1), se(&d2), ex(&d2), se(&d1), se(&d1)];
+            parts.join(" | ")
+        }
         "sel_exists" => {
             let jp = parse_jsonpath(a[1]);
             let sel = Selector::new(jp, Mode::Mixed);
